@@ -598,6 +598,16 @@ def decode_varint(buffer: bytes, pos: int) -> Tuple[int, int]:
     return value, pos + len(raw)
 
 
+def _read_exact(stream: "SupportsRead[bytes]", size: int) -> bytes:
+    """Read exactly ``size`` bytes or fail: a short read means truncated input."""
+    data = stream.read(size)
+    if len(data) != size:
+        raise EOFError(
+            f"Stream ended unexpectedly: expected {size} bytes but got {len(data)}."
+        )
+    return data
+
+
 @dataclasses.dataclass(frozen=True)
 class ParsedField:
     number: int
@@ -622,15 +632,15 @@ def load_fields(stream: "SupportsRead[bytes]") -> Generator[ParsedField, None, N
             decoded, r = load_varint(stream)
             raw += r
         elif wire_type == WIRE_FIXED_64:
-            decoded = stream.read(8)
+            decoded = _read_exact(stream, 8)
             raw += decoded
         elif wire_type == WIRE_LEN_DELIM:
             length, r = load_varint(stream)
-            decoded = stream.read(length)
+            decoded = _read_exact(stream, length)
             raw += r
             raw += decoded
         elif wire_type == WIRE_FIXED_32:
-            decoded = stream.read(4)
+            decoded = _read_exact(stream, 4)
             raw += decoded
 
         yield ParsedField(number=number, wire_type=wire_type, value=decoded, raw=raw)
@@ -655,6 +665,9 @@ def parse_fields(value: bytes) -> Generator[ParsedField, None, None]:
             i += length
         elif wire_type == WIRE_FIXED_32:
             decoded, i = value[i : i + 4], i + 4
+
+        if i > len(value):
+            raise EOFError("Buffer ended unexpectedly in the middle of a field.")
 
         yield ParsedField(
             number=number, wire_type=wire_type, value=decoded, raw=value[start:i]
